@@ -49,11 +49,17 @@ class BuildError(Exception):
 
 
 def harness_bin(profile='debug'):
+    # development aid (tools/coverage.sh): an instrumented build of the same harness, to MEASURE which lines of /repo the
+    # generated inputs reach; never set by a registered command
+    if os.environ.get('VERIF_HARNESS_BIN'):
+        return os.environ['VERIF_HARNESS_BIN']
     return os.path.join(HARNESS, 'target', profile, 'harness')
 
 
 def build_harness(profile='debug'):
     """(re)build the harness against /repo's working tree"""
+    if os.environ.get('VERIF_HARNESS_BIN'):
+        return harness_bin(profile)
     args = 'cargo build --offline' + (' --release' if profile == 'release' else '')
     rc, out, err = sh(args, cwd=HARNESS, timeout=1800)
     if rc != 0:
